@@ -232,6 +232,132 @@ theorem ewma_constant_any_lambda_binary32 (c L : SF) (hL0 : (c0 : SF) ≤ L) (hL
   have h : |(ewmaVal c c L).val - c.val| ≤ ewmaDelta |c.val| := abs_le.2 ⟨by linarith, by linarith⟩
   exact ⟨h, le_trans h (ewmaDelta_le (abs_nonneg _))⟩
 
+/-! ### constant input, arbitrary weight, NORMAL range: the sharp bound `2·u·|c|` (one unit in the last place) -/
+
+/-- the value over `ℚ` -/
+def ewmaQ (c L : ℚ) : ℚ := rne32 (rne32 (c * rne32 (1 - L)) + rne32 (c * L))
+
+theorem ewmaQ_neg (c L : ℚ) : ewmaQ (-c) L = - ewmaQ c L := by
+  unfold ewmaQ
+  rw [neg_mul, neg_mul, rne32_neg, rne32_neg, ← neg_add, rne32_neg]
+
+/-- the sum of the two rounded products stays within `5/4` ulp of `c` (`3/2` ulp in the lowest normal binade) -/
+theorem ewma_const_sum_near (c L : ℚ) (hc : Rep c) (hL : Rep L) (hL0 : 0 ≤ L) (hL1 : L ≤ 1) (e : ℤ) (he : -126 ≤ e)
+    (hce : (2:ℚ) ^ e ≤ c) (hce' : c < (2:ℚ) ^ (e + 1)) :
+    0 ≤ rne32 (c * rne32 (1 - L)) + rne32 (c * L) ∧
+    |rne32 (c * rne32 (1 - L)) + rne32 (c * L) - c| < 3 / 2 * (2:ℚ) ^ (e - 23) ∧
+    (-125 ≤ e → |rne32 (c * rne32 (1 - L)) + rne32 (c * L) - c| < 5 / 4 * (2:ℚ) ^ (e - 23)) := by
+  set U := (2:ℚ) ^ (e - 23) with hU
+  have hUpos : 0 < U := by positivity
+  have hc0 : 0 < c := lt_of_lt_of_le (by positivity) hce
+  have e0 : (2:ℚ) ^ e = 8388608 * U := by
+    have := zpow_shift (e - 23) 23
+    have e' : e - 23 + ((23:ℕ):ℤ) = e := by push_cast; ring
+    rw [e'] at this; rw [this, hU]; norm_num
+  have e1 : (2:ℚ) ^ (e + 1) = 16777216 * U := by rw [zpow_succ2, e0]; ring
+  have eh : (2:ℚ) ^ (e - 24) = U / 2 := by
+    have := zpow_succ2 (e - 24)
+    have e' : e - 24 + 1 = e - 23 := by ring
+    rw [e'] at this; rw [hU, this]; ring
+  -- the rounded complement `M`
+  have hMb := rne32_between c0 c1 (1 - L) (by rw [c0_val]; linarith) (by rw [c1_val]; linarith)
+  rw [c0_val, c1_val] at hMb
+  have hMe : |rne32 (1 - L) - (1 - L)| ≤ 1 / 33554432 := by
+    have := rne32_half_ulp (1 - L) (-1) (by norm_num) (by
+      rw [abs_of_nonneg (by linarith)]; norm_num; linarith)
+    norm_num at this; exact this
+  set M := rne32 (1 - L) with hM
+  have hcM0 : 0 ≤ c * M := mul_nonneg hc0.le hMb.1
+  have hcL0 : 0 ≤ c * L := mul_nonneg hc0.le hL0
+  have hcM1 : c * M ≤ c := by nlinarith
+  have hcL1 : c * L ≤ c := by nlinarith
+  have t1 := rne32_half_ulp (c * M) e he (by rw [abs_of_nonneg hcM0]; linarith)
+  have t2 := rne32_half_ulp (c * L) e he (by rw [abs_of_nonneg hcL0]; linarith)
+  rw [eh] at t1 t2
+  have hcE : |c * (M - (1 - L))| < U / 2 := by
+    rw [abs_mul, abs_of_pos hc0]
+    have : c * |M - (1 - L)| ≤ c * (1 / 33554432) := mul_le_mul_of_nonneg_left hMe hc0.le
+    rw [e1] at hce'
+    linarith
+  have split : rne32 (c * M) + rne32 (c * L) - c
+      = (rne32 (c * M) - c * M) + (rne32 (c * L) - c * L) + c * (M - (1 - L)) := by ring
+  have tri : |rne32 (c * M) + rne32 (c * L) - c|
+      ≤ |rne32 (c * M) - c * M| + |rne32 (c * L) - c * L| + |c * (M - (1 - L))| := by
+    rw [split]
+    exact le_trans (abs_add_le _ _) (add_le_add (abs_add_le _ _) (le_refl _))
+  refine ⟨add_nonneg (rne32_nonneg _ hcM0) (rne32_nonneg _ hcL0), by linarith, ?_⟩
+  intro he125
+  have eq4 : (2:ℚ) ^ (e - 1 - 24) = U / 4 := by
+    have a := zpow_succ2 (e - 1 - 24)
+    have e1' : e - 1 - 24 + 1 = e - 24 := by ring
+    rw [e1', eh] at a; linarith
+  have em1 : (2:ℚ) ^ (e - 1 + 1) = 8388608 * U := by
+    have : e - 1 + 1 = e := by ring
+    rw [this, e0]
+  by_cases hLh : 1 / 2 ≤ L
+  · -- `1 − L` is exact, `c·M ≤ c/2` lies a binade lower
+    have hMex : M = 1 - L := rep_one_sub hL hLh hL1
+    have hcMh : c * M ≤ 8388608 * U := by rw [hMex]; rw [e1] at hce'; nlinarith
+    have t1' := rne32_half_ulp (c * M) (e - 1) (by omega) (by rw [abs_of_nonneg hcM0, em1]; exact hcMh)
+    rw [eq4] at t1'
+    have : |c * (M - (1 - L))| = 0 := by rw [hMex]; simp
+    linarith
+  · -- `c·L < c/2` lies a binade lower
+    have hLh' : L < 1 / 2 := not_le.1 hLh
+    have hcLh : c * L ≤ 8388608 * U := by rw [e1] at hce'; nlinarith
+    have t2' := rne32_half_ulp (c * L) (e - 1) (by omega) (by rw [abs_of_nonneg hcL0, em1]; exact hcLh)
+    rw [eq4] at t2'
+    linarith
+
+/-- positive normal `c`: the result is `c` or one of its two binary32 neighbours -/
+theorem ewma_const_pos (c L : ℚ) (hc : Rep c) (hL : Rep L) (hL0 : 0 ≤ L) (hL1 : L ≤ 1) (e : ℤ) (he : -126 ≤ e)
+    (hce : (2:ℚ) ^ e ≤ c) (hce' : c < (2:ℚ) ^ (e + 1)) : |ewmaQ c L - c| ≤ (2:ℚ) ^ (e - 23) := by
+  obtain ⟨hs0, h32, h54⟩ := ewma_const_sum_near c L hc hL hL0 hL1 e he hce hce'
+  unfold ewmaQ
+  set s := rne32 (c * rne32 (1 - L)) + rne32 (c * L) with hs
+  rcases lt_or_ge s ((2:ℚ) ^ e) with hlow | hge
+  · rcases lt_or_ge (-126) e with h125 | h126
+    · exact rne32_near_below c s e (by omega) hc hce hlow (h54 (by omega))
+    · have he' : e = -126 := by omega
+      subst he'
+      have := rne32_near_below_min c s hc hlow hs0 (by norm_num at h32 ⊢; exact h32)
+      norm_num at this ⊢; exact this
+  · rcases le_or_gt s ((2:ℚ) ^ (e + 1)) with hle | hgt
+    · exact rne32_near_same c s e he hc hce hge hle h32
+    · exact rne32_near_above c s e he hc hce hce' hgt h32
+
+/-- **constant input, ANY binary32 weight `L ∈ [0,1]`, `c` in the normal range** (`|c| ≥ 2^-126`): the binary32 EWMA returns
+`c` or one of its two binary32 neighbours; in particular `|result − c| ≤ 2·u·|c|`.  (Attained up to the factor
+`1 − 2^-23`: `ewma_constant_not_exact`.  False below `2^-126`: `ewma_constant_two_u_fails_subnormal`.) -/
+theorem ewma_constant_two_u_binary32 (c L : SF) (hL0 : (c0 : SF) ≤ L) (hL1 : L ≤ c1)
+    (hc : (2:ℚ) ^ (-126:ℤ) ≤ |c.val|) : |(ewmaVal c c L).val - c.val| ≤ 2 * u * |c.val| := by
+  have hL0' : (0:ℚ) ≤ L.val := by have := (le_def _ _).1 hL0; rwa [c0_val] at this
+  have hL1' : L.val ≤ 1 := by have := (le_def _ _).1 hL1; rwa [c1_val] at this
+  have hval : (ewmaVal c c L).val = ewmaQ c.val L.val := ewmaVal_val c c L
+  rw [hval]
+  -- reduce to `|c|`
+  have key : ∀ x : ℚ, Rep x → (2:ℚ) ^ (-126:ℤ) ≤ x → |ewmaQ x L.val - x| ≤ 2 * u * x := by
+    intro x hx hx126
+    have hx0 : 0 < x := lt_of_lt_of_le (by positivity) hx126
+    obtain ⟨l1, l2⟩ := lg_spec x hx0
+    have hl : -126 ≤ lg x := (lg_ge_iff x hx0 _).2 hx126
+    have h := ewma_const_pos x L.val hx L.rep hL0' hL1' (lg x) hl l1 l2
+    have e : (2:ℚ) ^ (lg x - 23) = 2 * u * (2:ℚ) ^ (lg x) := by
+      rw [u_eq_zpow]
+      have : (2:ℚ) * 2 ^ (-24:ℤ) = 2 ^ (-23:ℤ) := by norm_num
+      rw [this, ← zpow_add₀ (by norm_num)]; congr 1; ring
+    rw [e] at h
+    have := mul_le_mul_of_nonneg_left l1 (by have := u_nonneg; linarith : (0:ℚ) ≤ 2 * u)
+    linarith
+  rcases le_total 0 c.val with hpos | hneg
+  · rw [abs_of_nonneg hpos] at hc ⊢
+    exact key c.val c.rep hc
+  · rw [abs_of_nonpos hneg] at hc ⊢
+    have h := key (-c.val) (rep_neg c.rep) hc
+    rw [ewmaQ_neg] at h
+    have e : -ewmaQ c.val L.val - -c.val = -(ewmaQ c.val L.val - c.val) := by ring
+    rwa [e, abs_neg] at h
+
 /-! ### many updates: the drift grows geometrically with ratio `(1+u)^3` -/
 
 /-- `k` successive updates from `p` with samples `nᵢ` and weights `Lᵢ` -/
